@@ -250,8 +250,9 @@ def wrong(o, e, yes, no):
 
 def stat_matches(e, o, sg):
     k = e['k']
-    if k == 'rat' and not (o[0] == 0 and o[1] == e['n'] and o[2] == e['d']) and not (e['d'] > MAX_DEN and o[0] == 3):
-        return False
+    if k == 'rat':      # the recorder only recovers rationals with a small denominator
+        if not ((o[0] == 0 and o[1] == e['n'] and o[2] == e['d']) if e['d'] <= MAX_DEN else o[0] in (0, 3)):
+            return False
     if k == 'inf' and o[0] != 1:
         return False
     if k == 'nan' and o[0] != 2:
@@ -261,8 +262,9 @@ def stat_matches(e, o, sg):
 
 
 def compare(out, obs):
-    """Mismatches between TLC's `out` and the observed projection: list of (what, d, i, expected); drifts; skipped."""
-    bad, drift, skipped = [], [], 0
+    """Mismatches between TLC's `out` and the observed projection: list of (what, d, i, expected); drifts;
+    (judgements skipped in a band, judgements the statement leaves free)."""
+    bad, drift, skipped, free = [], [], 0, 0
     ver = out['verdict']
     if wrong(obs['verdict'], ver, 'pass', 'fail'):
         bad.append(('verdict', 0, 0, ver))
@@ -270,14 +272,15 @@ def compare(out, obs):
         bad.append(('logic', 0, 0, 'conjunction'))
     for d, row in enumerate(out['cls']):
         for i, c in enumerate(row):
-            if c in ('band', 'free'):
-                skipped += 1
+            skipped += c == 'band'
+            free += c == 'free'
             if wrong(obs['orc'][d][i], c, 'pass', 'fail'):
                 bad.append(('oracle', d + 1, i + 1, c))
             if wrong(obs['pdec'][d][i], c, 'pass', 'fail'):
                 bad.append(('pdec', d + 1, i + 1, c))
             pv = out['pv'][d][i]
-            skipped += sum(1 for p in pv if p in ('band', 'free'))
+            skipped += sum(1 for p in pv if p == 'band')
+            free += sum(1 for p in pv if p == 'free')
             if any(wrong(obs['pab'][d][i][j], pv[j], 'yes', 'no') for j in range(len(pv))):
                 bad.append(('pvalue', d + 1, i + 1, c))
             if not stat_matches(out['st'][d][i], obs['ts'][d][i], out['sg'][d][i]):
@@ -285,7 +288,7 @@ def compare(out, obs):
     for m, v in enumerate(obs.get('meta', [])):
         if wrong(v, ver, 'pass', 'fail'):
             bad.append(('meta', m + 1, 0, ver))
-    return bad, drift, skipped
+    return bad, drift, (skipped, free)
 
 
 def case_of_state(st, shape, dtype='float'):
@@ -311,7 +314,7 @@ def _distinct_key(st):
 
 def _replay_blocks(blocks):
     """Worker: parse dumped states, run them on the implementation in every shape, compare."""
-    res = dict(n=0, evals=0, bad=[], drift=[], skipped=0, distinct=set(), samples=[])
+    res = dict(n=0, evals=0, bad=[], drift=[], skipped=0, free=0, distinct=set(), samples=[])
     for blk in blocks:
         st = parse_state(blk)
         out = _plain(st['out'])
@@ -331,7 +334,8 @@ def _replay_blocks(blocks):
                 continue
             bad, drift, skipped = compare(out, obs)
             if k == 0:
-                res['skipped'] += skipped
+                res['skipped'] += skipped[0]
+                res['free'] += skipped[1]
             for what, d, i, exp in bad:
                 res['bad'].append((vkey(what, case, d, i, exp, obs),
                                    '%s: Student.tla expects %s at dataset %d bin %d; observed verdict=%s oracles=%s '
@@ -380,6 +384,7 @@ def _account(ctx, results):
     for r in results:
         ctx.count(evaluations=r['evals'], traces=r['n'])
         ctx.cov['skipped_in_band'] += r['skipped']
+        ctx.cov['not_judged_statement_silent'] = ctx.cov.get('not_judged_statement_silent', 0) + r['free']
         for key in r['distinct']:
             ctx.distinct(key)
         for key, what, case in r['bad']:
@@ -419,13 +424,13 @@ def run_c05(ctx):
     runs = [
         # exhaustive
         ('bin1', _consts(FULL_V, FULL_E, 1, 1, ctx.pick([1, 3, 5], all_rows), ctx.pick(TEST_LEVS[:2], TEST_LEVS)), {}),
-        ('bin2', _consts(ctx.pick([0, 1, 3, 'nan'], [0, 1, 3, 'nan', 'inf']), [0, 1, 'nan'], 2, 1, ctx.pick([5], [2, 5]),
+        ('bin2', _consts(ctx.pick([0, 1, 3, 'nan'], [0, 1, 3, 'nan', 'inf']), [0, 1, 'nan'], 2, 1, [5],
                          [TEST_LEVS[1]]), {}),
-        ('ds2', _consts(ctx.pick([0, 2], [0, 2, 'nan']), [0, 1], 2, 2, ctx.pick([3], [3, 5]), [TEST_LEVS[1]]), {}),
+        ('ds2', _consts(ctx.pick([0, 2], [0, 2, 'nan']), [0, 1], 2, 2, [3], [TEST_LEVS[1]]), {}),
         # drawn at random by TLC (larger shapes, every level)
-        ('rand_full', _consts(FULL_V, FULL_E, 4, 2, all_rows, all_levs, 'rand', ctx.pick(150, 2500)),
+        ('rand_full', _consts(FULL_V, FULL_E, 4, 2, all_rows, all_levs, 'rand', ctx.pick(150, 1000)),
          dict(extra=['-seed', str(ctx.seed + 1)])),
-        ('rand_finite', _consts(range(-3, 4), [0, 1, 2, 3, 'inf'], 4, 3, all_rows, all_levs, 'rand', ctx.pick(150, 2500)),
+        ('rand_finite', _consts(range(-3, 4), [0, 1, 2, 3, 'inf'], 4, 3, all_rows, all_levs, 'rand', ctx.pick(150, 1000)),
          dict(extra=['-seed', str(ctx.seed + 2)])),
         # behaviours of the cell-by-cell build mode
         ('build', _consts(FULL_V, FULL_E, 3, 2, [2, 5], TEST_LEVS, 'build'),
@@ -437,7 +442,7 @@ def run_c05(ctx):
         kw = dict(kw)
         if 'simulate' not in kw:
             # -coverage costs a factor 2-3: only on the small runs (vacuity of the big ones: evaluated states are counted)
-            kw.update(dump=os.path.join(wd, name), workers=3, coverage=name not in ('bin1', 'bin2'))
+            kw.update(dump=os.path.join(wd, name), workers=ctx.pick(3, 6), coverage=name not in ('bin1', 'bin2') and ctx.quick)
         return _tlc(wd, name, consts, defs, INVS, **kw)
 
     # vacuity: witnesses, and the band path on a synthetic table
@@ -533,6 +538,7 @@ def _gen_case(rng, table):
             c = [sv(), se()]
             return c, (list(c) if rng.random() < 0.3 else [sv(), se()])
         return [rng.randint(-6, 6), rng.randint(0, 4)], [rng.randint(-6, 6), rng.randint(0, 4)]
+
     def other_for(cell):
         """a cell of a further compared dataset, drawn against the reference cell."""
         v, e = cell
@@ -579,7 +585,7 @@ def _observe_chunk(items):
 def _code_to_spec(ctx, wd):
     rng = ctx.rng
     table = laws.student_table()
-    n = ctx.pick(2000, 40000)
+    n = ctx.pick(2000, 20000)
     todo = [(cid, _gen_case(rng, table)) for cid in range(1, n + 1)]
     recorded = {}
     for chunk in run_parallel(_observe_chunk, chunked(todo, 2 * NPROC)):
@@ -602,6 +608,7 @@ def _code_to_spec(ctx, wd):
         ctx.tlc(res, 'StudentTrace/batch%d' % k)
         ctx.count(evaluations=len(batches[k]), traces=len(batches[k]))
         ctx.cov['skipped_in_band'] += int(out['skipped'])
+        ctx.cov['not_judged_statement_silent'] = ctx.cov.get('not_judged_statement_silent', 0) + int(out['free'])
         for cid, what, d, i, exp in sorted(out['bad'], key=lambda b: (b[0], b[1], b[2], b[3])):
             case, obs = recorded[cid]
             nbad += 1
